@@ -141,6 +141,8 @@ class CallMixin:
         if w == "bound":
             base = f.extra
             tgt = self.dispatch(base, f.obj, "method")
+            if tgt[0] in ("src", "raw") and getattr(tgt[1], "kind", None) == "staticmethod":
+                return self.call_function(st, tgt, args, kwargs, k, where=where)      # obj.static(...) binds no self
             return self.call_function(st, tgt, [base] + args, kwargs, k, where=where)
         if w == "clsattr":
             ci: ClassInfo = f.extra
@@ -202,6 +204,20 @@ class CallMixin:
             return self.apply_contract(st, c, args, kwargs, k, where, fi=fi)
         if (c is not None and c.inline) or name in self.reg.inline or raw:
             return self.inline_call(st, fi, args, kwargs, k, where, raw=raw)
+        # a function of the package without any contract (typically a helper that a change has just extracted): its
+        # real body is executed at the call site (sound: it IS the code; never for recursive helpers), and the fact is
+        # reported in the evidence under "auto_inlined"
+        stack = getattr(self, "_auto_inline_stack", None)
+        if stack is None:
+            stack = self._auto_inline_stack = []
+        if c is None and name not in stack and not self.reg.flags.get("no_auto_inline"):
+            stack.append(name)
+            try:
+                outs = self.inline_call(st, fi, args, kwargs, k, where)
+            finally:
+                stack.pop()
+            self.auto_inlined.add(name)
+            return outs
         raise Unsupported(f"call to {name} at {where}: no contract and not marked inline")
 
     def bind_params(self, st, fi: FuncInfo, args, kwargs, where):
